@@ -11,17 +11,17 @@ RULE = ('cases = seeded random 2-3-stack J1939-22 scenarios (1-12 messages of 61
         'set of (length class, mode), window classes, refusal seen)')
 ASSUMPTIONS = ['replies are processed after the handler that caused them has finished (no zero-latency re-entrancy on J1939-22, as the property states)',
                'protocol PGNs are not used as application PGNs', 'PGN compared with PS cleared for PDU1']
-MIN_OBS = {'multipacket_accepted': {'quick': 200, 'thorough': 3000}, 'deliveries_compared': {'quick': 800, 'thorough': 10000},
-           'messages_refused': 5, 'eom_notifications': 10}
+MIN_OBS = {'multipacket_accepted': {'quick': 3000, 'thorough': 30000}, 'deliveries_compared': {'quick': 10000, 'thorough': 100000},
+           'messages_refused': 200, 'eom_notifications': 500}
 
 
 def cases(tier, seed):
     rng = random.Random(2000 + seed)
     out = []
-    n = 260 if tier == 'quick' else 5000
+    n = 1000 if tier == 'quick' else 10000
     for i in range(n):
         out.append(dict(kind='random', seed=rng.randrange(1 << 30)))
-    for i in range(40 if tier == 'quick' else 600):
+    for i in range(120 if tier == 'quick' else 1200):
         out.append(dict(kind='capacity', seed=rng.randrange(1 << 30), count=rng.randint(0, 3), capacity=rng.randint(9, 16)))
     big = [15300, 20000] if tier == 'quick' else [15300, 19999, 20000, 12345]
     for L in big:
